@@ -1177,3 +1177,7 @@ REGISTRY["C04"] = C04
 from . import routecheck as R  # noqa: E402
 REGISTRY.update({"C13": R.C13, "C20": R.C20})
 EXECUTOR.update({"C13": "route", "C20": "route"})
+
+from . import speccheck as S  # noqa: E402
+REGISTRY.update({"C02": S.C02, "C05": S.C05, "C12": S.C12, "C17": S.C17})
+EXECUTOR.update({"C02": "spec", "C05": "spec", "C12": "spec", "C17": "spec"})
